@@ -126,6 +126,12 @@ class Tracer:
             ev["cls"] = type(w).__name__
             ev["mode"] = getattr(w, "mode", "")
             ev["tableTag"] = getattr(w, "tableTag", "")
+            comp = f.get("compiler")
+            if comp is not None:
+                if not hasattr(self, "_keep"):
+                    self._keep = []
+                self._keep.append(comp)          # (kept alive so that ids are not reused within one trace)
+            ev["compilerId"] = id(comp) if comp is not None else 0
             try:
                 ev["fea"] = f["feaFile"].asFea()
             except Exception as e:  # pragma: no cover
